@@ -274,6 +274,8 @@ class Exec:
                 return b.a[0][int(e['name'])]
             if isinstance(b, Val) and b.tag == 'elem' and e['name'].isdigit():
                 return Val('elem', b.a[0], '%s.%s' % (b.a[1], e['name']))
+            if isinstance(b, Val) and b.tag == 'q' and b.a[0].startswith('vertex_data(') and e['name'] == 'phase':
+                return Val('phase', Poly.sym('phase(%s)' % b.a[0][len('vertex_data('):-1]))
             return Val('unk', 'field ' + e['name'])
         if k == 'Index':
             b = self.ev(e['e'])
@@ -288,6 +290,13 @@ class Exec:
                 return b.a[0][int(i.a[0].const_val())]
             if isinstance(b, Val) and b.tag == 'elem' and isinstance(i, Val) and i.tag == 'int' and i.a[0].is_const():
                 return Val('elem', b.a[0], '%s[%s]' % (b.a[1], i.a[0]))
+            if isinstance(b, Val) and b.tag == 'param' and isinstance(i, Val) and (i.tag in ('idx', 'vtx', 'elem') or (i.tag == 'int' and i.a[0].is_const())):
+                return Val('elem', Val('coll', b.a[0], Val('vtx', '')), '%s[%s]' % (b.a[0], show(i)))
+            if isinstance(b, Val) and b.tag == 'param' and hir.range_bounds(e['i']):
+                rb = hir.range_bounds(e['i'])
+                lo = show(self.ev(rb[0])) if rb[0] is not None else ''
+                hi = show(self.ev(rb[1])) if rb[1] is not None else ''
+                return Val('coll', '%s[%s..%s]' % (b.a[0], lo, hi), Val('vtx', ''))
             bl = hir.local(e['e'])
             if bl is not None and isinstance(i, Val) and i.tag in ('vtx', 'elem', 'fresh', 'idx'):
                 # lookup in a local table (e.g. a vertex map): symbolic element named table[key]
@@ -308,9 +317,14 @@ class Exec:
         if k == 'MethodCall':
             return self.method(e)
         if k == 'Call':
-            if hir.vec_literal(e) == []:
+            items = hir.vec_literal(e)
+            if items == []:
                 return Val('built', ())
+            if items:
+                return Val('tuple', [self.ev(x) for x in items])
             return self.call(e)
+        if k == 'Array':
+            return Val('tuple', [self.ev(x) for x in e['items']])
         if k == 'Struct':
             return Val('struct', e['ctor'].get('path'), dict((n, self.ev(x)) for n, x in e['fields']))
         if k == 'Block':
@@ -473,7 +487,7 @@ class Exec:
             return Val('varsum', ())
         if short == 'from_iter' and len(args) == 1:
             return self.ev(args[0])
-        if c in self.facts['fns'] and c.startswith(('basic_rules::', 'simplify::')) and self.depth < 1 and self.is_graph(args[0]) if args else False:
+        if c in self.facts['fns'] and c.startswith(('basic_rules::', 'simplify::', 'decompose::')) and self.depth < 1 and self.is_graph(args[0]) if args else False:
             # call of another local rule: recorded as one effect (its own schema is checked separately)
             self.emit('call %s(%s)' % (short, ', '.join(show(self.ev(a)) for a in args[1:])))
             self.mutated = True
@@ -484,6 +498,8 @@ class Exec:
             return self.unk('mem::swap', e)
         if short in ('default',):
             return Val('default')
+        for a in args:
+            self.ev(a)     # nested calls may carry effects
         return self.unk('call ' + short, e)
 
     def method(self, e):
@@ -611,6 +627,23 @@ class Exec:
             return Val('cond', '%s.%s' % (show(r), n))
         if isinstance(r, Val) and r.tag == 'param' and not args and n.startswith('is_'):
             return Val('cond', '%s.%s' % (r.a[0], n))
+        if n == 'retain' and isinstance(r, Val) and r.tag == 'coll' and args and hir.strip(args[0]).get('k') == 'Closure':
+            cl = hir.strip(args[0])
+            saved = dict(self.env)
+            self.bind(cl['params'][0], Val('elem', r, 'x'))
+            c = self.cond_text(cl['body'])
+            self.env = saved
+            l = hir.local(recv)
+            if l:
+                self.env[l[1]] = Val('coll', 'filter[%s] %s' % (c, r.a[0]), r.a[1])
+                return Val('unit')
+        if n in ('sort', 'sort_unstable', 'dedup', 'reverse', 'truncate', 'clear', 'pop', 'remove', 'swap_remove', 'insert', 'append', 'extend', 'drain', 'push') and isinstance(r, Val) and r.tag == 'coll':
+            l = hir.local(recv)
+            if l and n not in ('sort', 'sort_unstable'):
+                self.env[l[1]] = Val('unk', 'collection mutated by .%s()' % n)
+            return Val('unit')
+        if n == 'count' and isinstance(r, Val) and r.tag == 'coll' and not args:
+            return Val('int', Poly.sym('|%s|' % show(r)))
         if n == 'rev':
             return r
         if n == 'enumerate' and isinstance(r, Val) and r.tag == 'coll':
@@ -776,6 +809,19 @@ class Exec:
             self.ctx.append('unreachable-after-return')
             return
         if k in ('Assign', 'AssignOp'):
+            l0 = hir.strip(s['l'])
+            if l0.get('k') == 'Field' and l0['name'] == 'phase':
+                base = hir.strip(l0['e'])
+                if base.get('k') == 'MethodCall' and (base.get('callee') or '') == GL + 'vertex_data_mut' and self.is_graph(base['recv']):
+                    tgt = self.ev(base['args'][0])
+                    r = self.as_phase(self.ev(s['r']))
+                    if k == 'AssignOp' and s['op'] == 'AddAssign':
+                        self.emit('add_to_phase(%s, %s)' % (show(tgt), show(r)))
+                        self.atoms.append((tuple(self.ctx), 'add_to_phase', [tgt, r]))
+                        return
+                    if k == 'Assign':
+                        self.emit('set_phase(%s, %s)' % (show(tgt), show(r)))
+                        return
             l = hir.strip(s['l'])
             tgt = self.ev(l) if l.get('k') != 'Unary' else self.ev(l)
             r = self.ev(s['r'])
@@ -795,7 +841,8 @@ class Exec:
                     return
             if ll and k == 'AssignOp' and s['op'] in ('AddAssign', 'SubAssign') and isinstance(self.env.get(ll[1]), Val) and self.env[ll[1]].tag == 'int' and isinstance(r, Val) and r.tag == 'int':
                 ctxs = ' | '.join(self.ctx)
-                inc = r.a[0] * Poly.sym('count[%s]' % ctxs) if ctxs else r.a[0]
+                only_ifs = all(c.startswith('if ') for c in self.ctx)
+                inc = r.a[0] * Poly.sym(('[%s]' % ctxs) if only_ifs else ('count[%s]' % ctxs)) if ctxs else r.a[0]
                 self.env[ll[1]] = Val('int', self.env[ll[1]].a[0] + (inc if s['op'] == 'AddAssign' else -inc))
                 return
             if ll and k == 'Assign' and isinstance(r, Val) and r.tag in ('varsum', 'vars'):
@@ -856,9 +903,10 @@ def _negate(c):
         return 'true'
     if c.startswith('not '):
         return c[4:]
-    if ' == ' in c and not c.startswith('('):
+    simple = not any(x in c for x in '([') and sum(c.count(o) for o in (' == ', ' != ', ' < ', ' > ', ' <= ', ' >= ', ' and ', ' or ')) == 1
+    if ' == ' in c and simple:
         return c.replace(' == ', ' != ')
-    if ' != ' in c and not c.startswith('('):
+    if ' != ' in c and simple:
         return c.replace(' != ', ' == ')
     if c.endswith('.is_empty'):
         return c[:-9] + '.nonempty'
